@@ -335,6 +335,9 @@ def api_paths(job, G, names, N, cfg):
                 nss, o = N[sup].step(ss)
                 gs, ss = G.step(gs, nss.replace(seq=jnp.zeros_like(nss.seq)), o)
         d["override_stale_seq"] = canon_gs(gs, names)
+        if n == 0:
+            # a zero-step rollout is zero run() calls (e.g. rollout(gs, max_steps=T - t) once t == T), not "the default horizon"
+            d["rollout_carry"] = canon_gs(jax.jit(G.rollout, static_argnames=("max_steps", "carry_only"))(gs0, max_steps=0, carry_only=True), names)
         if n > 0:
             d["rollout_carry"] = canon_gs(jax.jit(G.rollout, static_argnames=("max_steps", "carry_only"))(gs0, max_steps=n, carry_only=True), names)
             full = jax.jit(G.rollout, static_argnames=("max_steps", "carry_only"))(gs0, max_steps=n, carry_only=False)
